@@ -307,6 +307,14 @@ class UCSolutionEnumerator():
         # factors with complex windows?
         self._preamble_solution_count = self.__count_preamble_solutions()
 
+    def _one_source_choice_per_instance(self, trial_count: int) -> bool:
+        """Source combinations can be indexed by crossing instance (instead of by trial) only when every
+        instance occurs exactly once among the trials: a whole unweighted round of plain permutations.
+        With complex crossed factors an instance can occur several times even in an unweighted round."""
+        return (trial_count == len(self._crossing_instances)
+                and self._crossing_is_unweighted
+                and self.__complex_crossing_instances == 1)
+
     def solution_count(self):
         return self._solution_count
 
@@ -346,7 +354,7 @@ class UCSolutionEnumerator():
 
     def random_components(self, components_shape: RandomComponentsShape, trial_count: int, leftover: int) -> Components:
         crossing_permutation_index = random.randrange(0, components_shape.crossings_shape)
-        if trial_count == len(self._crossing_instances) and self._crossing_is_unweighted:
+        if self._one_source_choice_per_instance(trial_count):
             source_combination_indices = tuple([random.randrange(0, len)
                                                 for len in components_shape.combinations_shapes])
         else:
@@ -441,7 +449,7 @@ class UCSolutionEnumerator():
         # Generate the source combinations for the selected sequence.
         source_combinations = cast(List[dict], [])
         for i, p in enumerate(permutation_indices):
-            if trial_count == len(self._crossing_instances) and self._crossing_is_unweighted:
+            if self._one_source_choice_per_instance(trial_count):
                 component_for_p = components[1][p]
             else:
                 component_for_p = components[1][i]
@@ -625,7 +633,7 @@ class UCSolutionEnumerator():
         # of all combinations; in that case, we can just multiply the new segment
         # lengths into `solution_count`. Otherwise, we need to consider every choice of
         # `first_n` crossing combinations, and then multiply the
-        if first_n == len(self._crossing_instances) and self._crossing_is_unweighted:
+        if self._one_source_choice_per_instance(first_n):
             solution_count *= reduce(op.mul, components_shape.combinations_shapes, 1)
         else:
             solution_count = self.sum_combination_products(solution_count,
